@@ -389,7 +389,9 @@ def grammar_model(g):
         unit = ("seq", [("star", simp(("alt", pres))), prim]) if pres else prim
         body = ("seq", [unit, ("star", ("seq", [simp(("alt", bins)), unit]))]) if bins else unit
         lrec = {"rule": me, "alts": alts}
-        par_rules.append({"name": me, "body": body, "lrec": alts})
+        par_rules.append({"name": me, "body": body, "lrec": alts,
+                          "lrec_parts": {"prim": prim, "pre": simp(("alt", pres)) if pres else None,
+                                         "bin": simp(("alt", bins)) if bins else None}})
 
     # desugar plus/opt
     def desugar(e):
@@ -409,6 +411,8 @@ def grammar_model(g):
         r["body"] = desugar(r["body"])
     for r in par_rules:
         r["body"] = desugar(r["body"])
+        if r.get("lrec_parts"):
+            r["lrec_parts"] = {k: (desugar(v) if v is not None else None) for k, v in r["lrec_parts"].items()}
     return {"lex": lex_rules, "par": par_rules, "ttypes": ttypes, "start": par_index.get("start", 0)}
 
 
@@ -492,10 +496,30 @@ def emit(model, src_sha):
         if not r["fragment"] and r["literal"] is not None))
     A("")
     A("Definition parser_rule_names : list string := [%s]." % "; ".join(coq_string(r["name"]) for r in model["par"]))
+    lrec_idx = None
+    for i, r in enumerate(model["par"]):
+        if r.get("lrec_parts"):
+            lp = r["lrec_parts"]
+            if lp["pre"] is None or lp["bin"] is None:
+                raise G4Error("left-recursive rule without prefix or binary alternatives is not supported")
+            lrec_idx = i
+            A("(* the directly left-recursive rule  A : prim | pre A | A bin A  of the grammar file ... *)")
+            A("Definition lrec_prim : ebnf nat := %s." % coq_ebnf(lp["prim"], fmt_tok))
+            A("Definition lrec_pre : ebnf nat := %s." % coq_ebnf(lp["pre"], fmt_tok))
+            A("Definition lrec_bin : ebnf nat := %s." % coq_ebnf(lp["bin"], fmt_tok))
+    A("(* the grammar with the left-recursive rule in loop form (what the executable recogniser runs on) *)")
     A("Definition pg (r:nat) : ebnf nat :=\n  match r with")
     for i, r in enumerate(model["par"]):
-        A("  | %d => %s" % (i, coq_ebnf(r["body"], fmt_tok)))
+        if i == lrec_idx:
+            A("  | %d => Seq (Seq (Star lrec_pre) lrec_prim) (Star (Seq lrec_bin (Seq (Star lrec_pre) lrec_prim)))" % i)
+        else:
+            A("  | %d => %s" % (i, coq_ebnf(r["body"], fmt_tok)))
     A("  | _ => Alt Eps Eps\n  end.")
+    if lrec_idx is not None:
+        A("(* the grammar as written: the rule is left-recursive; proofs/GrammarP.v shows both derive the same words *)")
+        A("Definition pg_lr (r:nat) : ebnf nat :=\n  match r with")
+        A("  | %d => Alt lrec_prim (Alt (Seq lrec_pre (Ref %d)) (Seq (Ref %d) (Seq lrec_bin (Ref %d))))" % (lrec_idx, lrec_idx, lrec_idx, lrec_idx))
+        A("  | r' => pg r'\n  end.")
     A("Definition parser_rule_count : nat := %d." % len(model["par"]))
     A("Definition start_rule : nat := %d." % model["start"])
     # precedence table of the left-recursive rule: (kind, operator tokens, precedence, right-assoc)
